@@ -214,6 +214,23 @@ Proof.
   unfold merge_custom. rewrite (mcf_signature nvb va g rf Hq Hin Hb Hf Hs).
   destruct F as [F|[F|[F|F]]]; rewrite F; reflexivity.
 Qed.
+(* the comparison does not reject a declaration against itself (argument names distinct, as GraphQL requires) *)
+Lemma opt_str_eqb_refl o : opt_str_eqb o o = true.
+Proof. destruct o; cbn; [apply String.eqb_refl|reflexivity]. Qed.
+Lemma find_self_nodup (l : list arg) : NoDup (map a_name l) ->
+  forall x, In x l -> find (fun y => a_name y =? a_name x) l = Some x.
+Proof.
+  induction l as [|z r IH]; intros Hnd x Hin; [destruct Hin|]. inversion Hnd as [|? ? Hni Hnd']; subst. cbn [find].
+  destruct Hin as [<-|Hin]; [rewrite String.eqb_refl; reflexivity|].
+  destruct (a_name z =? a_name x) eqn:E; [|apply IH; assumption].
+  exfalso. apply String.eqb_eq in E. apply Hni. rewrite E. apply in_map, Hin.
+Qed.
+Theorem same_sig_refl f : NoDup (map a_name (f_args f)) -> same_sig f f = true.
+Proof.
+  intros Hnd. unfold same_sig. rewrite String.eqb_refl, Nat.eqb_refl. cbn [andb].
+  apply forallb_forall. intros x Hx. rewrite (find_self_nodup _ Hnd x Hx). rewrite String.eqb_refl, opt_str_eqb_refl. reflexivity.
+Qed.
+
 (* two services: whatever else the schemas contain, the set is rejected *)
 Theorem signature_conflict_rejected2 uA A uB B dA dB f g :
   In dB B -> find_def (d_name dB) A = Some dA -> is_builtin (d_name dB) = false ->
